@@ -1104,6 +1104,10 @@ pub fn run(scenario: u32, choices: &[u8], _strict: bool) -> Outcome {
       o.nontrivial = r.nontrivial;
       o.labels = r.labels;
       o.label(if scenario == 3 { "stateful-reader-script" } else { "stateful-writer-script" });
+      if o.labels.contains(&"writer-repair-frags-never-drain") {
+        let detail = format!("after the script (every datagram in it is well-formed) and 20 further timer rounds without any traffic a reader proxy still has repair fragments on request: the SendRepairFrags timer re-arms itself for ever (every millisecond in production). {}", o.sample.chars().take(1500).collect::<String>());
+        o.violate("c06.perpetual-work", "writer:repair-frags", detail);
+      }
     }
     _ => o.verdict = Verdict::Discard("unknown scenario".into()),
   }
